@@ -23,6 +23,8 @@ struct Env {
     kernel_consumed: u32,
     /// Set when the other submitter wrote a slot that was not free.
     env_error: bool,
+    /// see verif_stubs::V
+    magic: u64,
 }
 
 static mut ENV: Env = Env {
@@ -33,6 +35,7 @@ static mut ENV: Env = Env {
     others_published: 0,
     kernel_consumed: 0,
     env_error: false,
+    magic: 0x5EED_A10C_0000_0004,
 };
 
 /// One environment step, run at every yield point (before a lock is taken,
@@ -287,12 +290,12 @@ pub(crate) fn submissions_in_place(len: u32, kernel_thread: bool, single_issuer:
 // C11: the glue around the polling-state handshake in Submissions::wake.
 // ---------------------------------------------------------------------------
 
-static mut WAKE_ENTERS: u32 = 0;
-static mut WAKE_ENTER_TAIL: u32 = 0;
-static mut WAKE_REG_CALLS: u32 = 0;
-static mut WAKE_REG_FD: i32 = 0;
-static mut WAKE_REG_OP: u32 = 0;
-static mut WAKE_REG_SQE: k::Sqe = k::ZERO_SQE;
+static mut WAKE_ENTERS: crate::verif_stubs::V<u32> = crate::verif_stubs::V::new(0);
+static mut WAKE_ENTER_TAIL: crate::verif_stubs::V<u32> = crate::verif_stubs::V::new(0);
+static mut WAKE_REG_CALLS: crate::verif_stubs::V<u32> = crate::verif_stubs::V::new(0);
+static mut WAKE_REG_FD: crate::verif_stubs::V<i32> = crate::verif_stubs::V::new(0);
+static mut WAKE_REG_OP: crate::verif_stubs::V<u32> = crate::verif_stubs::V::new(0);
+static mut WAKE_REG_SQE: crate::verif_stubs::V<k::Sqe> = crate::verif_stubs::V::new(k::ZERO_SQE);
 
 /// Kani stub for Shared::enter (its own behaviour: C03/C05): records that the
 /// kernel was entered and what had been published by then, consumes everything.
@@ -303,8 +306,8 @@ fn wake_enter_stub(
     _timeout: Option<std::time::Duration>,
 ) -> std::io::Result<u32> {
     unsafe {
-        WAKE_ENTERS += 1;
-        WAKE_ENTER_TAIL = k::sq_tail();
+        WAKE_ENTERS.v += 1;
+        WAKE_ENTER_TAIL.v = k::sq_tail();
     }
     k::sq_mem().head.store(k::sq_tail(), std::sync::atomic::Ordering::Relaxed);
     Ok(0)
@@ -312,10 +315,10 @@ fn wake_enter_stub(
 
 unsafe fn wake_register(fd: libc::c_int, op: libc::c_uint, arg: *const libc::c_void, _nr: libc::c_uint) -> libc::c_int {
     unsafe {
-        WAKE_REG_CALLS += 1;
-        WAKE_REG_FD = fd;
-        WAKE_REG_OP = op;
-        WAKE_REG_SQE = k::sqe_view(&*arg.cast::<libc::io_uring_sqe>());
+        WAKE_REG_CALLS.v += 1;
+        WAKE_REG_FD.v = fd;
+        WAKE_REG_OP.v = op;
+        WAKE_REG_SQE.v = k::sqe_view(&*arg.cast::<libc::io_uring_sqe>());
     }
     0
 }
@@ -345,8 +348,8 @@ fn c11_wake_glue() {
         sq.shared().polling.set_polling(true);
     }
     unsafe {
-        WAKE_ENTERS = 0;
-        WAKE_REG_CALLS = 0;
+        WAKE_ENTERS.v = 0;
+        WAKE_REG_CALLS.v = 0;
     }
     let tail0 = k::sq_tail();
     let r = sq.wake();
@@ -358,20 +361,20 @@ fn c11_wake_glue() {
     want.addr = u64::from(libc::IORING_MSG_DATA);
     want.user_data = 1;
     if !polling {
-        assert!(k::sq_tail() == tail0 && unsafe { WAKE_ENTERS } == 0 && unsafe { WAKE_REG_CALLS } == 0, "nobody to wake: nothing submitted, no system call");
+        assert!(k::sq_tail() == tail0 && unsafe { WAKE_ENTERS.v } == 0 && unsafe { WAKE_REG_CALLS.v } == 0, "nobody to wake: nothing submitted, no system call");
         // the flag is set, so the next poll does not block
         assert!(sq.shared().polling.set_polling(true), "the next poll sees the wake-up");
     } else if single {
-        assert!(k::sq_tail() == tail0 && unsafe { WAKE_ENTERS } == 0, "single issuer: nothing queued from this thread");
-        assert!(unsafe { WAKE_REG_CALLS } == 1 && unsafe { WAKE_REG_FD } == -1 && unsafe { WAKE_REG_OP } == libc::IORING_REGISTER_SEND_MSG_RING);
-        assert!(unsafe { WAKE_REG_SQE } == want, "the wake message");
+        assert!(k::sq_tail() == tail0 && unsafe { WAKE_ENTERS.v } == 0, "single issuer: nothing queued from this thread");
+        assert!(unsafe { WAKE_REG_CALLS.v } == 1 && unsafe { WAKE_REG_FD.v } == -1 && unsafe { WAKE_REG_OP.v } == libc::IORING_REGISTER_SEND_MSG_RING);
+        assert!(unsafe { WAKE_REG_SQE.v } == want, "the wake message");
     } else {
-        assert!(unsafe { WAKE_REG_CALLS } == 0);
+        assert!(unsafe { WAKE_REG_CALLS.v } == 0);
         // full queue: first entry only drains it, second publishes the message
         let expected_enters = if free == 0 { 2 } else { 1 };
-        assert!(unsafe { WAKE_ENTERS } == expected_enters, "kernel entered so that the message is really submitted");
+        assert!(unsafe { WAKE_ENTERS.v } == expected_enters, "kernel entered so that the message is really submitted");
         assert!(k::sq_tail() == tail0 + 1, "exactly one wake message");
-        assert!(unsafe { WAKE_ENTER_TAIL } == tail0 + 1, "published before the kernel is entered");
+        assert!(unsafe { WAKE_ENTER_TAIL.v } == tail0 + 1, "published before the kernel is entered");
         let e = k::sqe_view(k::sqe((tail0 & 1) as usize));
         assert!(e == want, "MSG_RING to the ring itself with the wake user_data");
     }
